@@ -34,6 +34,13 @@ func CheckC10(h *History) []Violation {
 			}
 			switch o.Op.Kind {
 			case "create":
+				if o.Op.OneTime {
+					if o.Status != 201 {
+						v.add("C10", "event-rejected", "", o.Op.ID, "one-time event create op %d answered %d", o.Op.ID, o.Status)
+						return v.list
+					}
+					continue
+				}
 				if o.Status != 201 || o.Ref == "" {
 					continue
 				}
@@ -97,9 +104,15 @@ func CheckC10(h *History) []Violation {
 	// concurrent creates: nothing is released inside the concurrent phase, so all
 	// acknowledged references must be pairwise distinct
 	refs := map[string]*OpResult{}
+	relSess := map[string]bool{}
 	for _, o := range all {
-		if o.Op.Kind != "create" || !o.Done || o.Status != 201 || o.Ref == "" {
-			continue
+		if o.Op.Kind == "release" {
+			relSess[o.Op.Sess] = true
+		}
+	}
+	for _, o := range all {
+		if o.Op.Kind != "create" || o.Op.OneTime || !o.Done || o.Status != 201 || o.Ref == "" || relSess[o.Op.Sess] {
+			continue // sessions released inside the concurrent phase may legitimately hand their number on
 		}
 		if other, dup := refs[o.Ref]; dup {
 			v.add("C10", "duplicate-reference", refShape(other.Op.Supi, o.Op.Supi)+" concurrent", o.Op.ID,
